@@ -1589,6 +1589,12 @@ fn check_metamorphic(rep: &mut Report, rng: &mut Rng) {
         let j = rng.below(i as u64 + 1) as usize;
         programs.swap(i, j);
     }
+    // position grids first (never dropped by the time cut): many same-kind one-line constructs at random columns
+    // over 30-120 rows; whatever the generator derives from a statement's (row, column) must not make a
+    // re-layout (blanks, newline <-> colon, blank lines) change the run
+    for _ in 0..(if thorough { 40 } else { 5 }) {
+        programs.insert(0, ("grid".to_owned(), rb_harness::gen_prog::grid(rng), true));
+    }
     for (origin, text, is_accepted) in &programs {
         if t0.elapsed() > deadline {
             break;
